@@ -98,6 +98,10 @@ def run(chk, ctx) -> None:
                'a list / tuple is cut to the player count and missing entries are zero', got=f'truncate: {ok_ret}; pad with 0 while short: {pad}')
         ok = all(p.raised and p.outcome[1] == 'ValueError' for p in arms['else'])
         chk.ob('C19.values', 'utilities.clean_values:else', ok, cv.loc, 'anything else is rejected with ValueError')
+        rejecting = sorted(k for k in ('Number', 'Mapping', 'Iterable') if any(p.raised for p in arms[k]))
+        chk.ob('C19.values', 'utilities.clean_values:accepting', not rejecting, cv.loc,
+               'every number, mapping (any position from -count to count - 1) and iterable is accepted: only a value of no known form is rejected',
+               got=f'arms that raise: {rejecting}')
     chk.floor('C19.values', 5)
     # State uses it for antes, blinds and stacks alike
     pi = ctx.sfi('__post_init__')
@@ -202,11 +206,8 @@ def run(chk, ctx) -> None:
     # ----------------------------------------------------------------- helpers
     from .c01 import _helpers
     _helpers(_Rename(chk), ctx)
-    pv = mi.functions.get('parse_value')
-    ok = pv is not None and any(isinstance(n, ast.Try) and 'int(raw_value)' in ast.unparse(n.body) and any('Decimal(raw_value)' in ast.unparse(h) for h in n.handlers)
-                                 for n in ast.walk(pv.node)) and any(T.norm(n.value) == T.spec("raw_value.replace(',', '')") for n in ast.walk(pv.node) if isinstance(n, ast.Assign))
-    chk.ob('C19.values', 'utilities.parse_value', ok, pv.loc if pv else 'pokerkit/utilities.py',
-           'chip text is an int when it can be, otherwise an exact Decimal; thousands separators are ignored')
+    from .helpers import parse_value_helper
+    parse_value_helper(chk, ctx, 'C19.values')
     sg = mi.functions.get('sign')
     rets = {}
     if sg is not None:
